@@ -103,13 +103,53 @@ func init() {
 				W: map[string]float64{"submit": 30, "tip": 8, "delegate": 10, "undelegate": 6, "redelegate": 5, "createReporter": 6, "selectReporter": 8, "switchReporter": 6, "removeSelector": 2,
 					"unjailReporter": 4, "proposeDispute": 3, "vote": 3, "createValidator": 1.5, "unjailVal": 1.5, "govProposal": 1, "govVote": 4, "cancelUnbond": 1.5}}
 		},
-		World:    func(cfg *WorldCfg, r *Rng) { cfg.MaxValidators = uint32(3 + r.Pick(4)); cfg.NumVals = 5; cfg.ExtraVals = 3 },
+		World: func(cfg *WorldCfg, r *Rng) {
+			cfg.MaxValidators = uint32(3 + r.Pick(4))
+			cfg.NumVals = 5
+			cfg.ExtraVals = 3
+		},
 		Monitors: func(st *Stats) []Monitor { return []Monitor{NewC10Monitor(st)} }, Cases: tierMap(24, 128), Blocks: tierMap(300, 800)})
 	Register(&PropDef{ID: "C14",
 		Profile: func(tier string, r *Rng) Profile {
 			return Profile{Name: "c14-bridge", MinTx: 2, MaxTx: 6, Hostile: 0.2, VoteFault: 0.0, GapBig: 0.05, Gov: false,
-				W: map[string]float64{"withdrawTokens": 10, "claimDeposits": 8, "submit": 14, "tip": 5, "proposeDispute": 3, "addEvidence": 1, "vote": 2, "undelegate": 0.5, "redelegate": 0.5, "delegate": 2},
+				W:         map[string]float64{"withdrawTokens": 10, "claimDeposits": 8, "submit": 14, "tip": 5, "proposeDispute": 3, "addEvidence": 1, "vote": 2, "undelegate": 0.5, "redelegate": 0.5, "delegate": 2},
 				Fragments: []string{"deposit1", "deposit2", "deposit3"}}
 		},
 		Monitors: func(st *Stats) []Monitor { return []Monitor{NewC14Monitor(st)} }, Cases: tierMap(12, 64), Blocks: tierMap(160, 400)})
+}
+
+func init() {
+	bridgeProfile := func(name string) Profile {
+		return Profile{Name: name, MinTx: 2, MaxTx: 7, Hostile: 0.1, VoteFault: 0.12, GapBig: 0.22, Gov: false,
+			W: map[string]float64{"delegate": 14, "undelegate": 9, "redelegate": 5, "createValidator": 3, "unjailVal": 4, "cancelUnbond": 2, "submit": 10, "tip": 5, "requestAttest": 6,
+				"withdrawTokens": 3, "proposeDispute": 2, "vote": 2, "multiStake": 2, "privileged": 0.1, "registerSpec": 0.1}}
+	}
+	world := func(cfg *WorldCfg, r *Rng) {
+		cfg.NumVals = 3 + r.Pick(4)
+		cfg.ExtraVals = 3
+		cfg.MaxValidators = uint32(cfg.NumVals + r.Pick(3))
+		cfg.ValStake = [][]int64{{5000, 3000, 2000, 2000, 1000, 1000}, {1000, 1000, 1000, 1000, 1000, 1000}, {900, 300, 200, 100, 50, 20}, {2, 2, 1, 1, 1, 1}}[r.Pick(4)]
+	}
+	Register(&PropDef{ID: "C16", Profile: func(tier string, r *Rng) Profile { return bridgeProfile("c16-valset") }, World: world,
+		Monitors: func(st *Stats) []Monitor { return []Monitor{NewC16Monitor(st)} }, Cases: tierMap(20, 96), Blocks: tierMap(300, 800)})
+	Register(&PropDef{ID: "C17", Profile: func(tier string, r *Rng) Profile { return bridgeProfile("c17-proposals") }, World: world,
+		Monitors: func(st *Stats) []Monitor { return []Monitor{NewC17Monitor(st)} }, Cases: tierMap(16, 64), Blocks: tierMap(250, 600),
+		Opts:   func() AppOpts { return AppOpts{PanicLog: &PanicLog{}} },
+		Setup:  func(c *Chain, st *Stats, r *Rng) { NewProposalLab(st, r, 6).Attach(c) },
+		Finish: func(c *Chain, g *Gen, mons []Monitor) { finalizeUndecodable(c) }})
+}
+
+func init() {
+	Register(&PropDef{ID: "C18chain",
+		Profile: func(tier string, r *Rng) Profile {
+			return Profile{Name: "c18-staking", MinTx: 3, MaxTx: 8, Hostile: 0.1, VoteFault: 0.02, GapBig: 0.12,
+				W: map[string]float64{"delegate": 16, "undelegate": 10, "redelegate": 6, "cancelUnbond": 3, "multiStake": 12, "createValidator": 2, "proposeDispute": 2, "vote": 1, "submit": 8, "tip": 3}}
+		},
+		Monitors: func(st *Stats) []Monitor { return []Monitor{NewC18ChainMonitor(st)} }, Cases: tierMap(12, 64), Blocks: tierMap(250, 600)})
+	Register(&PropDef{ID: "C09chain",
+		Profile: func(tier string, r *Rng) Profile {
+			return Profile{Name: "c09-tbr", MinTx: 3, MaxTx: 8, Hostile: 0.1, GapBig: 0.04, Gov: true, Fragments: []string{"mintInit"},
+				W: map[string]float64{"submit": 30, "tip": 12, "createReporter": 5, "selectReporter": 6, "delegate": 6, "govVote": 5, "govProposal": 0.6, "registerSpec": 1}}
+		},
+		Monitors: func(st *Stats) []Monitor { return []Monitor{NewC09ChainMonitor(st)} }, Cases: tierMap(12, 64), Blocks: tierMap(250, 600)})
 }
